@@ -128,6 +128,21 @@ def unusedFrom (prog : Program) (seen : List String) : Nat → List VarDecl → 
 
 def unusedSpec (prog : Program) : List Occ := unusedFrom prog [] 0 prog.vars
 
+def stmtCall : Statement → List Range
+  | .fnCall fn => [fn.callerRange]
+  | _ => []
+
+def declCall (d : VarDecl) : List Range :=
+  match d.origin with
+  | some fn => [fn.callerRange]
+  | none => []
+
+/-- caller ranges of the calls of a program, in traversal order.  The checker keys its call
+    resolution table by the call site; in a parsed program distinct calls have distinct caller
+    ranges (`(callRanges prog).Nodup`), which an arbitrary `Program` value need not satisfy. -/
+def callRanges (prog : Program) : List Range :=
+  prog.vars.flatMap declCall ++ prog.stmts.flatMap stmtCall
+
 /-- projections of the diagnostics -/
 def unboundDiags (ds : List Diag) : List Occ :=
   ds.filterMap (fun d => match d.kind with | .unboundVariable n => some (d.range, n) | _ => none)
